@@ -210,6 +210,74 @@ def from_str_rules(ctx, report, lit):
                      "from_str: " + "; ".join(problems), fn=f.path, sp=t.sp, config=cfg)
         # trailing data
         trailing_rule(ctx, report, f, an)
+        text_rejections(ctx, report, f, an)
+
+
+def text_rejections(ctx, report, f, an):
+    """REJECT: from_str refuses nothing that is the text form of a record.  Every
+    explicit `Err(..)` exit is taken only when the string is shorter than any
+    record's text can be (a length test whose rejected lengths are all below 64),
+    when the base64 decoder or the record decoder failed, when a checked prefix
+    operation failed, or when bytes are left after the record."""
+    import guards
+    from rules.c01 import ret_exprs
+    from rules.typestate import const_int
+    cfg = ctx.config
+
+    def alts(e, depth=0):
+        e = strip(e)
+        if e.k == "phi" and depth < 8:
+            for a in e.a[0]:
+                yield from alts(a, depth + 1)
+        else:
+            yield e
+
+    def failed_call(e):
+        return any(x.k == "call" and (x.a[0].local or x.a[0].name in ("decode", "get", "strip_prefix", "split_at_checked", "split_once", "from_utf8")) for x in e.walk())
+    bad = []
+    n = 0
+    for bb, idx, e, node in ret_exprs(an):
+        for es in alts(e):
+            if not (es.k == "agg" and es.a[0].endswith("Result::Err")):
+                continue
+            n += 1
+            okw = None
+            if any(x.k == "vfield" and x.a[1] in ("Err", "Break") for x in es.walk()):
+                okw = "converted from a failure"
+            for d, cond, allowed, alll in an.constraints_at(bb):
+                if okw:
+                    break
+                c = strip(cond)
+                if c.k == "discr":
+                    if allowed and allowed <= {"Err", "Break", "None"} and failed_call(c.a[0]):
+                        okw = "failed call"
+                    continue
+                r = guards.constraint_set(cond, allowed, const_int, strip)
+                if r is not None:
+                    q = strip(r[0])
+                    if q.k == "call" and q.a[0].name == "len" and q.a[1] and any(x.k == "param" and x.a[0] == 1 for x in q.a[1][0].walk()):
+                        if all(hi != guards.INF and hi < 64 for lo, hi in r[1]):
+                            okw = "too short for any record"
+                        continue
+                neg = False
+                c0 = c
+                while c0.k == "unop" and c0.a[0] == "Not":
+                    neg = not neg
+                    c0 = strip(c0.a[1])
+                true_edge = ("otherwise" in allowed or 1 in allowed) and 0 not in allowed
+                false_edge = allowed == {0}
+                holds = (true_edge and not neg) or (false_edge and neg)
+                fails = (false_edge and not neg) or (true_edge and neg)
+                if c0.k == "call" and c0.a[0].name == "is_empty" and fails and c0.a[1] and strip(c0.a[1][0]).k != "param":
+                    okw = "bytes left after the record"
+                if c0.k == "call" and c0.a[0].name in ("is_char_boundary",) and fails:
+                    okw = "not a character boundary"
+            if okw is None:
+                bad.append(getattr(node, "sp", None) or "bb%d" % bb)
+    report.check("REJECT", "from_str/only-justified", not bad,
+                 "each of from_str's %d explicit rejections is taken only for strings too short for any record, after a failed decoder / prefix operation, or when bytes follow the record" % n,
+                 "from_str has a rejection that nothing in the text form's definition justifies (or a justified test with the polarity reversed): valid texts can be refused (at %s)" % sorted(set(map(str, bad))),
+                 fn=f.path, sp=f.span, config=cfg)
 
 
 def suffix_of_param(an, f, a, at_bb):
